@@ -5,10 +5,11 @@ COQ := coq
 QFLAGS := $(shell grep '^-Q' $(COQ)/_CoqProject | tr '\n' ' ')
 THEORY_V := $(addprefix $(COQ)/,$(shell grep '\.v$$' $(COQ)/_CoqProject))
 THEORY_VO := $(THEORY_V:.v=.vo)
-PROPS := $(basename $(notdir $(wildcard $(COQ)/Properties/C*.v)))
+# property files of the checks claimed in MANIFEST.json
+PROPS := $(shell python3 -c "import json; print(' '.join(c['property_id'] for c in json.load(open('MANIFEST.json'))['checks']))")
 
 .PHONY: all theories model props clean FORCE
-all: theories model props
+all: model props
 
 $(COQ)/Makefile.coq: $(COQ)/_CoqProject
 	cd $(COQ) && coq_makefile -f _CoqProject -o Makefile.coq 2>/dev/null
@@ -16,7 +17,10 @@ $(COQ)/Makefile.coq: $(COQ)/_CoqProject
 theories: $(COQ)/Makefile.coq
 	@timeout 3500 $(MAKE) --no-print-directory -C $(COQ) -f Makefile.coq -j16 2>&1 | grep -v '^Warning\|^COQDEP\|^make\[' ; exit $${PIPESTATUS[0]}
 
-props: $(addprefix prop-,$(PROPS))
+# A property whose proofs do not build must not prevent the other checks from
+# being set up: its own check reports the broken obligation.
+props:
+	@for p in $(PROPS); do $(MAKE) --no-print-directory prop-$$p || echo "proof step of $$p FAILED (reported by ./check $$p)"; done
 
 # A property's proof step builds only the closure its statement file needs, so
 # that a broken proof elsewhere does not take the other properties down.
@@ -35,7 +39,8 @@ chk-%: prop-%
 
 model: bin/ngsmodel
 
-bin/ngsmodel: $(THEORY_V) $(COQ)/Extract.v ocaml/driver.ml | theories
+bin/ngsmodel: $(THEORY_V) $(COQ)/Extract.v ocaml/driver.ml
+	@$(MAKE) --no-print-directory theories
 	@mkdir -p ocaml/gen bin
 	@cd ocaml/gen && timeout 900 coqc $(subst -Q ,-Q ../../$(COQ)/,$(QFLAGS)) ../../$(COQ)/Extract.v | grep -v '^$$' || true
 	@cp ocaml/driver.ml ocaml/gen/ && cd ocaml/gen && \
